@@ -189,8 +189,11 @@ Proof.
   assert (Hev : Z.even (utf8_len (hexdigits d)) = true).
   { rewrite (utf8_len_uhex _ Hu), hexdigits_length. rewrite Nat2Z.inj_mul. apply Z.even_mul. }
   assert (Hself : normalize (render d) = Some (render d)).
-  { rewrite render_group at 2. rewrite <- Hc at 2.
-    apply normalize_of_canon; rewrite Hc; auto. apply forallb_uhex, Hu. }
+  { rewrite (normalize_of_canon (render d)).
+    - rewrite Hc, <- render_group. reflexivity.
+    - rewrite Hc; exact Hnn.
+    - rewrite Hc; exact Hev.
+    - rewrite Hc. apply forallb_uhex, Hu. }
   split; [exact Hself |]. intros v. split.
   - intros H. apply normalize_some in H. destruct H as (Hg & _ & _ & Hh).
     rewrite render_group in Hg.
@@ -201,9 +204,10 @@ Qed.
 (* ------------------------------------------------------------------ all fingerprints agree *)
 Lemma fp_eqb_eq a b : fp_eqb a b = true -> a = b.
 Proof.
-  unfold fp_eqb. destruct a as [a1 a2], b as [b1 b2]. cbn.
-  destruct (list_eq_dec Z.eq_dec a1 b1); [| discriminate]. destruct (list_eq_dec Z.eq_dec a2 b2); [| discriminate].
-  intros _. congruence.
+  unfold fp_eqb. destruct a as [a1 a2], b as [b1 b2]. cbn [fst snd].
+  destruct (list_eq_dec Z.eq_dec a1 b1) as [-> |]; [| intros H; discriminate H].
+  destruct (list_eq_dec Z.eq_dec a2 b2) as [-> |]; [| intros H; discriminate H].
+  reflexivity.
 Qed.
 
 Lemma collect_from_agree attrs : forall cur f,
